@@ -13,10 +13,11 @@ from .glue import GlueMixin
 from .frame import FrameMixin
 from .gather import GatherMixin
 from .windows import WindowMixin
+from .select import SelectMixin
 from .stmts import NORMAL, RETURN, RAISE
 
 
-class Engine(FrameMixin, GlueMixin, WindowMixin, GatherMixin, LazyMixin, NpMixin, Exec):
+class Engine(FrameMixin, GlueMixin, WindowMixin, SelectMixin, GatherMixin, LazyMixin, NpMixin, Exec):
     pass
 
 
